@@ -144,8 +144,8 @@ def gen_case(r, big=False, maxops=25, residue=None):
                                    (1 << 62, 4), (r.randint(0, W - 1), r.randint(0, W - 1))])
             tot = nm * sz
             would = tot < W and sim.top <= sim.C and rup(tot if tot else 1) >= tot and rup(tot if tot else 1) <= sim.C - sim.top
-            if big and would and A + sim.top + tot + 8 > BASE + REGION:
-                ops.append("M%d" % tot)          # never let the real memset run over unmapped memory
+            if big and would and (tot > 4096 or A + sim.top + tot + 8 > BASE + REGION):
+                ops.append("M%d" % tot)          # no real memset over unmapped memory, no long unary loops in the model
                 sim.malloc(tot, i)
             else:
                 if tot < W:
